@@ -47,17 +47,18 @@ package xsync
 //@ define rootOf(t, b) = root(t, ridx[b])
 //@ define pow2(n) = n > 0 && (n & (n - 1)) == 0
 //@ define idxOf(t, k) = u64(nbk(t) - 1) & hashString(k, t.seed)
-//@ define tblShape(t) = t != nil && wfslice(t.buckets) && pow2(nbk(t)) && wfslice(t.size) && pow2(len(t.size))
-//@ define chains(t) = forall b: *bucketPadded :: own(t, b) ==> b != nil && ridx[b] < u64(nbk(t)) && own(t, rootOf(t, b)) && 0 <= pos[b] && pos[b] < clen[rootOf(t, b)] && ((pos[b] == 0) == (b == rootOf(t, b))) && (b.next != nil ==> own(t, b.next) && ridx[b.next] == ridx[b] && pos[b.next] == pos[b] + 1) && (b.next == nil ==> pos[b] == clen[rootOf(t, b)] - 1)
+//@ define tblShape(t) = t != nil && allocated(t) && wfslice(t.buckets) && pow2(nbk(t)) && wfslice(t.size) && pow2(len(t.size))
+//@ define chains(t) = forall b: *bucketPadded :: own(t, b) ==> b != nil && allocated(b) && allocated(b.next) && ridx[b] < u64(nbk(t)) && own(t, rootOf(t, b)) && 0 <= pos[b] && pos[b] < clen[rootOf(t, b)] && ((pos[b] == 0) == (b == rootOf(t, b))) && (b.next != nil ==> own(t, b.next) && ridx[b.next] == ridx[b] && pos[b.next] == pos[b] + 1) && (b.next == nil ==> pos[b] == clen[rootOf(t, b)] - 1)
 //@ define roots(t) = forall j: uint64 :: j < u64(nbk(t)) ==> own(t, root(t, j)) && ridx[root(t, j)] == j && pos[root(t, j)] == 0
 //@ define chainsInj(t) = forall b1: *bucketPadded, b2: *bucketPadded :: own(t, b1) && own(t, b2) && ridx[b1] == ridx[b2] && pos[b1] == pos[b2] ==> b1 == b2
 //@ define present3(w, i) = ((w >> (u64(i) + 1)) & 1) == 1
 //@ define keyAt(b, i) = load(string, b.keys[i])
 //@ define valAt(b, i) = load("interface{}", b.values[i])
-//@ define slots(t) = forall b: *bucketPadded, i: int :: own(t, b) && 0 <= i && i < 3 ==> ((b.keys[i] == nil) == (b.values[i] == nil)) && ((b.keys[i] != nil) == present3(b.topHashMutex, i)) && (b.keys[i] != nil ==> topHashMatch(hashString(keyAt(b, i), t.seed), b.topHashMutex, i) && idxOf(t, keyAt(b, i)) == ridx[b] && tview[t][keyAt(b, i)] == some(valAt(b, i)) && slotb[t][keyAt(b, i)] == b && sloti[t][keyAt(b, i)] == i)
+//@ define slots(t) = forall b: *bucketPadded, i: int :: own(t, b) && 0 <= i && i < 3 ==> ((b.keys[i] == nil) == (b.values[i] == nil)) && ((b.keys[i] != nil) == present3(b.topHashMutex, i)) && (b.keys[i] != nil ==> allocated(b.keys[i]) && allocated(b.values[i]) && topHashMatch(hashString(keyAt(b, i), t.seed), b.topHashMutex, i) && idxOf(t, keyAt(b, i)) == ridx[b] && tview[t][keyAt(b, i)] == some(valAt(b, i)) && slotb[t][keyAt(b, i)] == b && sloti[t][keyAt(b, i)] == i)
 //@ define viewSlots(t) = forall k: string :: present(tview[t][k]) ==> own(t, slotb[t][k]) && 0 <= sloti[t][k] && sloti[t][k] < 3 && as(slotb[t][k], "*bucketPadded").keys[sloti[t][k]] != nil && keyAt(as(slotb[t][k], "*bucketPadded"), sloti[t][k]) == k
+//@ define locksFree(t) = forall b: *bucketPadded :: own(t, b) ==> (b.topHashMutex & 1) == 0
 //@ define tableInv(t) = tblShape(t) && chains(t) && roots(t) && chainsInj(t) && slots(t) && viewSlots(t)
-//@ define mapRI(m) = m != nil && tableInv(tab(m)) && view(m) == tview[tab(m)]
+//@ define mapRI(m) = m != nil && m.resizing == 0 && pow2(m.minTableLen) && tableInv(tab(m)) && locksFree(tab(m)) && view(m) == tview[tab(m)]
 
 // ---------------------------------------------------------------------------------------------
 // Disciplines on the table layer (C13 lock set / monitor, C14 access classes, C05 invocation counts, C16 effects).
@@ -94,6 +95,7 @@ package xsync
 //@   requires m != nil
 //@   effect blocking nolocks
 //@   modifies allmem, allghost
+//@   ensures assumed private keeps: mapRI(m) && view(m) == old(view(m)) && tab(m) == old(tab(m))
 //@   loop for.loop: invariant param: true
 //@   ensures {C13} post.released: nheld() == 0
 
@@ -103,6 +105,7 @@ package xsync
 //@   effect blocking nolocks
 //@   modifies allmem, allghost
 //@   loop for.loop: invariant shape: newTable != nil && tblShape(newTable) && tblShape(table) && table != nil && 0 <= i
+//@   ensures assumed private keeps: hint != 2 ==> mapRI(m) && view(m) == old(view(m))
 //@   ensures {C13} monitor.no-lost-wakeup: monitorOK()
 //@   ensures {C13} post.released: nheld() == 0
 
@@ -150,26 +153,42 @@ package xsync
 
 //@ func (*Map).doCompute
 //@   serves C13 C14
-//@   requires m != nil && valueFn != nil
-//@   requires private tblShape(tab(m)) && pow2(m.minTableLen)
+//@   requires m != nil && mapInv(m) && valueFn != nil
+//@   requires private mapRI(m)
 //@   opaque pure valueFn
-//@   modifies allmem, allghost
+//@   modifies view(m), allmem, tview, slotb, sloti, tbl, ridx, pos, clen
+//@   let o = old(view(m))[key]
+//@   let called = !(loadIfExists && present(o))
+//@   let t0 = old(tab(m))
 //@   loop compute_attempt: invariant {C05} noinvocation: ncb(valueFn) == 0 && nheld() == 0
-//@   loop compute_attempt: invariant shape: tblShape(tab(m)) && pow2(m.minTableLen)
-//@   loop for.body: invariant cursor: b != nil && rootb != nil && holds(addr(rootb.topHashMutex)) && table != nil && tblShape(table) && (emptyb != nil ==> 0 <= emptyidx && emptyidx < 3) && ncb(valueFn) == 0
-//@   loop for.loop: invariant idx: 0 <= i && i <= 3 && b != nil && rootb != nil && holds(addr(rootb.topHashMutex)) && table != nil && tblShape(table) && (emptyb != nil ==> 0 <= emptyidx && emptyidx < 3) && ncb(valueFn) == 0
+//@   loop compute_attempt: invariant {C11,C03} unchanged: mapRI(m) && view(m) == old(view(m)) && tab(m) == t0 && called
+//@   loop for.body: invariant cursor: b != nil && rootb != nil && holds(addr(rootb.topHashMutex)) && table == t0 && ncb(valueFn) == 0
+//@   loop for.body: invariant {C11,C03} walk: own(t0, b) && ridx[b] == idxOf(t0, key) && rootb == root(t0, idxOf(t0, key)) && hash == hashString(key, t0.seed) && (present(o) ==> pos[slotb[t0][key]] >= pos[b])
+//@   loop for.body: invariant {C11,C03} empty: emptyb != nil ==> own(t0, emptyb) && ridx[emptyb] == idxOf(t0, key) && 0 <= emptyidx && emptyidx < 3 && emptyb.keys[emptyidx] == nil
+//@   loop for.body: decreases clen[rootOf(t0, b)] - pos[b]
+//@   loop for.loop: invariant idx: 0 <= i && i <= 3 && b != nil && rootb != nil && holds(addr(rootb.topHashMutex)) && table == t0 && ncb(valueFn) == 0 && topHashes == b.topHashMutex
+//@   loop for.loop: invariant {C11,C03} walk: own(t0, b) && ridx[b] == idxOf(t0, key) && rootb == root(t0, idxOf(t0, key)) && hash == hashString(key, t0.seed) && (present(o) ==> pos[slotb[t0][key]] >= pos[b])
+//@   loop for.loop: invariant {C11,C03} scanned: forall j: int :: 0 <= j && j < i ==> !(b.keys[j] != nil && keyAt(b, j) == key)
+//@   loop for.loop: invariant {C11,C03} empty: emptyb != nil ==> own(t0, emptyb) && ridx[emptyb] == idxOf(t0, key) && 0 <= emptyidx && emptyidx < 3 && emptyb.keys[emptyidx] == nil
+//@   loop for.loop: decreases 3 - i
 //@   oncall valueFn: {C05,C13} under-root-lock: nheld() == 1 && holds(addr(rootb.topHashMutex))
 //@   oncall valueFn: {C05,C03} validated: validated()
+//@   calls when(called, valueFn(valOr0(o), present(o))) -> (nv, del)
+//@   ghostsync view(m) := tview[tab(m)]
 //@   ensures {C05} valueFn.atmostonce: ncb(valueFn) <= 1
-//@   ensures {C05} valueFn.once-unless-loaded: ncb(valueFn) == 1 || loadIfExists
 //@   ensures {C16} fastpath.nolock: loadIfExists && ncall("Load") == 1 && lastret("Load", 1) ==> nacquire() == 0 && nblocking() == 0
+//@   ensures {C11,C03} post.loaded: !called ==> res0 == val(o) && res1 == !computeOnly && view(m) == old(view(m))
+//@   ensures {C11,C03} post.deleted: called && del ==> view(m) == remove(old(view(m)), key) && res0 == valOr0(o) && res1 == (present(o) && !computeOnly)
+//@   ensures {C11,C03} post.stored: called && !del ==> view(m) == put(old(view(m)), key, nv) && res0 == ite(computeOnly || !present(o), nv, val(o)) && res1 == (computeOnly || present(o))
+//@   ensures private {C11,C03} post.ri: mapRI(m)
+//@   ensures mapInv(m)
 
 //@ -- twin-end MapDisc
 
 // ---- MapOf: the same disciplines (bucket mutex instead of the lock bit, 5 entries per bucket, SWAR meta word) ----
 //@ purefn hasher
 //@ define tabOf(m) = as(m.table, "*mapOfTable")
-//@ define tblShapeOf(t) = t != nil && wfslice(t.buckets) && pow2(len(t.buckets)) && wfslice(t.size) && pow2(len(t.size))
+//@ define tblShapeOf(t) = t != nil && allocated(t) && wfslice(t.buckets) && pow2(len(t.buckets)) && wfslice(t.size) && pow2(len(t.size))
 //@ define markOK(w) = (w & 18446743521797832575) == 0
 
 //@ func (*MapOf[K, V]).resizeInProgress
@@ -263,10 +282,10 @@ package xsync
 //@ define entAt(b, i) = as(b.entries[i], "*entryOf")
 //@ define mbyte(w, i) = (w >> (u64(i) * 8)) & 255
 //@ define mbit(w, i) = ((w >> (u64(i) * 8 + 7)) & 1) == 1
-//@ define chainsO(t) = forall b: *bucketOfPadded :: own(t, b) ==> b != nil && ridx[b] < u64(len(t.buckets)) && own(t, rootOfO(t, b)) && 0 <= pos[b] && pos[b] < clen[rootOfO(t, b)] && ((pos[b] == 0) == (b == rootOfO(t, b))) && (b.next != nil ==> own(t, b.next) && ridx[b.next] == ridx[b] && pos[b.next] == pos[b] + 1) && (b.next == nil ==> pos[b] == clen[rootOfO(t, b)] - 1)
+//@ define chainsO(t) = forall b: *bucketOfPadded :: own(t, b) ==> b != nil && allocated(b) && allocated(b.next) && ridx[b] < u64(len(t.buckets)) && own(t, rootOfO(t, b)) && 0 <= pos[b] && pos[b] < clen[rootOfO(t, b)] && ((pos[b] == 0) == (b == rootOfO(t, b))) && (b.next != nil ==> own(t, b.next) && ridx[b.next] == ridx[b] && pos[b.next] == pos[b] + 1) && (b.next == nil ==> pos[b] == clen[rootOfO(t, b)] - 1)
 //@ define rootsO(t) = forall j: uint64 :: j < u64(len(t.buckets)) ==> own(t, rootO(t, j)) && ridx[rootO(t, j)] == j && pos[rootO(t, j)] == 0
 //@ define chainsInjO(t) = forall b1: *bucketOfPadded, b2: *bucketOfPadded :: own(t, b1) && own(t, b2) && ridx[b1] == ridx[b2] && pos[b1] == pos[b2] ==> b1 == b2
-//@ define slotsO(m, t) = forall b: *bucketOfPadded, i: int :: own(t, b) && 0 <= i && i < 5 ==> ((b.entries[i] == nil) == (mbyte(b.meta, i) == 128)) && (b.entries[i] != nil ==> mbyte(b.meta, i) == u64(h2(hashOf(m, t, entAt(b, i).key))) && idxOfO(m, t, entAt(b, i).key) == ridx[b] && tviewOf[t][entAt(b, i).key] == some(entAt(b, i).value) && slotbOf[t][entAt(b, i).key] == b && slotiOf[t][entAt(b, i).key] == i)
+//@ define slotsO(m, t) = forall b: *bucketOfPadded, i: int :: own(t, b) && 0 <= i && i < 5 ==> ((b.entries[i] == nil) == (mbyte(b.meta, i) == 128)) && (b.entries[i] != nil ==> allocated(b.entries[i]) && mbyte(b.meta, i) == u64(h2(hashOf(m, t, entAt(b, i).key))) && idxOfO(m, t, entAt(b, i).key) == ridx[b] && tviewOf[t][entAt(b, i).key] == some(entAt(b, i).value) && slotbOf[t][entAt(b, i).key] == b && slotiOf[t][entAt(b, i).key] == i)
 //@ define viewSlotsO(t) = forall k: K :: present(tviewOf[t][k]) ==> own(t, slotbOf[t][k]) && 0 <= slotiOf[t][k] && slotiOf[t][k] < 5 && as(slotbOf[t][k], "*bucketOfPadded").entries[slotiOf[t][k]] != nil && entAt(as(slotbOf[t][k], "*bucketOfPadded"), slotiOf[t][k]).key == k
 //@ define tableInvO(m, t) = tblShapeOf(t) && chainsO(t) && rootsO(t) && chainsInjO(t) && slotsO(m, t) && viewSlotsO(t)
 //@ define mapOfRI(m) = m != nil && m.hasher != nil && tableInvO(m, tabOf(m)) && view(m) == tviewOf[tabOf(m)]
